@@ -691,11 +691,40 @@ def build_variant(case):
 # --------------------------------------------------------------------------
 # convenience for checks: recipes + variations in one draw
 # --------------------------------------------------------------------------
-def random_case(rng, emphasis=None, p_multi=0.15, space=None, p_mixed=0.3):
+DEEP_BITS = [29, 31, 39, 47] * 4 + list(range(17, 49))
+
+
+def deepen(rng, r):
+    """Give recipe `r` a custom signal range of 17-48 bits: luma and/or chroma excursion exactly 2^k - 1 (k = 29, 31, 39,
+    47 favoured: the values where a floating-point log2 rounds the wrong way) or, sometimes, a deep non-power-of-two
+    excursion.  Content becomes mid-grey so that every profile can encode it (coefficients are all zero before re-packing).
+    Records the depths in r["deep_bits"] = [luma, chroma]."""
+    def exc(k):
+        if rng.random() < 0.8:
+            return (1 << k) - 1
+        return rng.randrange((1 << (k - 1)) + 1, (1 << k) - 1)
+
+    kl = rng.choice(DEEP_BITS)
+    kc = rng.choice(DEEP_BITS)
+    which = rng.choice(["both", "both", "luma", "chroma"])
+    le, ce = r["range"][1], r["range"][3]
+    if which in ("both", "luma"):
+        le = exc(kl)
+    if which in ("both", "chroma"):
+        ce = exc(kc)
+    r["range"] = [rng.choice([0, (le + 1) // 2, le // 16]), le, rng.choice([0, (ce + 1) // 2]), ce]
+    r["pics"]["class"] = "mid"
+    r["deep_bits"] = [le.bit_length(), ce.bit_length()]
+    return r
+
+
+def random_case(rng, emphasis=None, p_multi=0.15, space=None, p_mixed=0.3, p_deep=0.0):
     """Draw 1-2 configuration recipes (small pictures, few pictures per sequence so
     that a case costs ~0.1 s) and the variations to apply to them.  With probability
     p_mixed the first sequence also gets the pictures of 1-2 sibling recipes (chained
-    or star-shaped single-attribute changes, so two pictures may differ in two attributes)."""
+    or star-shaped single-attribute changes, so two pictures may differ in two attributes).
+    With probability p_deep (default 0: the C08 deserialiser guard stops at 21 bits) a recipe gets a 17-48 bit
+    signal range (see deepen)."""
     from vlib.gen import configs
 
     n = 2 if rng.random() < p_multi else 1
@@ -722,6 +751,8 @@ def random_case(rng, emphasis=None, p_multi=0.15, space=None, p_mixed=0.3):
         if emphasis == "clip":
             # the content is replaced anyway; cheap content keeps the encoder fast
             r["pics"]["class"] = rng.choice(["zero", "mid", "noise"])
+        if p_deep and rng.random() < p_deep:
+            deepen(rng, r)  # before siblings are drawn: they share the header
         recipes.append(r)
     force = None
     if rng.random() < p_mixed:
